@@ -295,7 +295,7 @@ def rule_lt_lex(rep, db):
         seen.add(pts[0])
         key = "%s operator<" % pts[0].replace("fcppt::", "")
         pa, pb = fn["params"][0]["id"], fn["params"][1]["id"]
-        t = T.norm(u, rets[0]["e"])
+        t = T.snorm(u, fn, rets[0]["e"])
         # whole-object delegation (array_less(a, b), std::less(&a, &b), (a.impl() <=> b.impl()) < 0): one component
         try:
             e = _lt_expr(t, pa, pb)
@@ -454,7 +454,7 @@ def main(rep, tier, only):
             continue
         seen.add(site)
         rets = [r for r in F.walk(fn.get("body"), into_lambdas=False) if r.get("k") == "return"]
-        t = T.norm(u, rets[0]["e"]) if len(rets) == 1 else None
+        t = T.snorm(u, fn, rets[0]["e"]) if len(rets) == 1 else None
         a = ("v", params[0]["id"], params[0]["name"])
         b = ("v", params[1]["id"], params[1]["name"])
 
